@@ -220,6 +220,13 @@ fn late_mutations(ctl: &trace::Ctl) -> Option<String> {
         match ev {
             Ev::Mark(Mark::DropReturned(no)) => dropped.push((*no, p)),
             Ev::Write { tid, file, .. } | Ev::Truncate { tid, file, .. } | Ev::Unlink { tid, file, ok: true } => {
+                if *tid != ctl.main_tid && owner(p, *tid).is_none() {
+                    // neither the harness thread nor any registered flush worker: a thread some
+                    // store instance started on its own
+                    if let Some((no, dp)) = dropped.last() {
+                        return Some(format!("a thread that is neither the caller nor a registered flush worker (tid {tid}) changed {} at trace position {p}, after drop() of store instance #{no} had returned (position {dp})", ctl.names[*file as usize]));
+                    }
+                }
                 if let Some(label) = owner(p, *tid) {
                     if let Some((_, dp)) = dropped.iter().find(|d| d.0 == label) {
                         let what = match ev {
